@@ -17,7 +17,7 @@ from checks import c07_tool as TL
 LEVEL = "proof"
 MODULE = "Sqfs.Props.C07"
 REQUIRED = ["Sqfs.C07.resolve_links_terminates", "Sqfs.C07.resolve_ok_targets", "Sqfs.C07.resolve_links_exact",
-            "Sqfs.C07.resolve_tree_exact", "Sqfs.C07.expected_unique", "Sqfs.C07.chain_fates_exclusive", "Sqfs.C07.specClass_sound",
+            "Sqfs.C07.link_counts_determined", "Sqfs.C07.resolve_tree_exact", "Sqfs.C07.expected_unique", "Sqfs.C07.chain_fates_exclusive", "Sqfs.C07.specClass_sound",
             "Sqfs.C07.read_number_in_bounds", "Sqfs.C07.read_octal_no_wrap", "Sqfs.C07.parse_uint_in_bounds_len",
             "Sqfs.C07.parse_uint_in_bounds_nul", "Sqfs.C07.parse_int_in_bounds", "Sqfs.C07.hex_decode_bounds",
             "Sqfs.C07.base64_decode_bounds", "Sqfs.C07.split_line_total", "Sqfs.C07.read_pax_header_total",
